@@ -160,6 +160,8 @@ def compare_models(res, case, mode, parsed, rec, flavour):
 
     if (parsed["sequence"] or "").upper() != genome.upper():
         dev("sequence", parsed["sequence"], genome)
+    if parsed.get("fc_starts") is not None and parsed["fc_starts"] != sorted(parsed["fc_starts"]):
+        dev("fc-order", parsed["fc_starts"], sorted(parsed["fc_starts"]))
     got = {}
     for g in parsed["genes"]:
         k = g["locus_tag"] or "tx:" + "|".join(sorted(str(t["transcript_id"]) for t in g["transcripts"]))
@@ -167,6 +169,11 @@ def compare_models(res, case, mode, parsed, rec, flavour):
     if sorted(got) != sorted(e["key"] for e in exp) or any(len(v) != 1 for v in got.values()):
         dev("genes", sorted((k, len(v)) for k, v in got.items()), sorted(e["key"] for e in exp))
         return
+    # the returned collection lists its genes by position (the start of their gene rows), whatever their locus tags spell
+    by_key = {e["key"]: e["gene_start"] for e in exp}
+    listed = [by_key[k] for k in parsed.get("gene_keys", []) if k in by_key]
+    if listed != sorted(listed):
+        dev("gene-order", [[k, by_key.get(k)] for k in parsed["gene_keys"]], "genes listed by start")
     for e in exp:
         g = got[e["key"]][0]
         if g["locus_tag"] != e["locus_tag"]:
